@@ -1307,6 +1307,10 @@ class ABCPropertyGraph(ABCPropertyGraphConstants):
         self.add_node(node_id=interface.node_id, label=ABCPropertyGraph.CLASS_ConnectionPoint, props=props)
         if parent_node_id is not None:
             self.add_link(node_a=parent_node_id, rel=ABCPropertyGraph.REL_CONNECTS, node_b=interface.node_id)
+        # sub-interfaces the sliver carries, if any
+        if interface.interface_info is not None:
+            for child in interface.interface_info.interfaces.values():
+                self.add_interface_sliver(parent_node_id=interface.node_id, interface=child)
 
     def get_all_ns_or_link_connection_points(self, link_id: str) -> List[str]:
         """
